@@ -149,6 +149,11 @@ func drawELFModel(t *rapid.T) *elfgen.Model {
 			}
 		}
 		s.Vaddr = drawVaddr(t, placed, s.Memsz, m.Class64, 6, "segVaddr")
+		if uniformInt(t, 3, "paddrDiffers") == 0 {
+			// physical address different from the virtual one (the loader places
+			// segments at their virtual address)
+			s.PaddrDelta = []uint64{0x1000, 0x100000, ^uint64(0x2000) + 1, 4}[uniformInt(t, 4, "paddrDelta")]
+		}
 		if s.Type == elfgen.PTLoad {
 			placed = append(placed, addrRange{s.Vaddr, s.Vaddr + s.Memsz})
 		}
